@@ -214,6 +214,13 @@ func init() {
 						if err != nil {
 							return implObs(nil, err)
 						}
+						// a base value that has been read before: its search parameters may have been created
+						switch i % 3 {
+						case 1:
+							_ = B.SearchParams().Has("a")
+						case 2:
+							_ = B.Href(false) + B.Search() + B.SearchParams().String()
+						}
 						return implObs(B.Parse(ref))
 					})
 				} else {
